@@ -427,6 +427,14 @@ package mcp
 //@   ensures @first-page calls(dec) == 0 ==> calls(startAll) == 1 && calls(startAbove) == 0 && callArg(startAll, 1, 0) == fs
 //@   ensures @decode-at-most-once calls(dec) <= 1
 //@   snapshot afterDecode after call decodeCursor
+//@   track encodeCursor as enc
+//@   track fs.uniqueID as uid
+//@   requires pageSize > 0 && pageSize < 4611686018427387904
+//@   rangeloop invariant @page-never-exceeds-its-size local(count) == len(local(features)) && local(count) <= pageSize
+//@   ensures @a-page-holds-at-most-page-size-items calls(setFunc) == 1 ==> len(callArg(setFunc, 1, 1)) <= pageSize
+//@   ensures @a-next-cursor-only-after-a-full-page calls(enc) <= 1 && (calls(enc) == 1 ==> len(callArg(setFunc, 1, 1)) == pageSize)
+//@   ensures @the-next-cursor-names-the-last-item-of-the-page calls(enc) == 1 ==> calls(uid) == 1 && callArg(enc, 1, 0) == callResult(uid, 1, 0) && callArg(uid, 1, 0) == at(filled, callArg(setFunc, 1, 1)[pageSize - 1])
+//@   snapshot filled after call setFunc
 
 // The cursor codec decodes into a fresh local token (gob/base64 are library code): nothing that existed before the
 // call is written. Assumed, not verified.
